@@ -50,7 +50,11 @@ class Contract:
 
 
 def contract(qual, **kw):
-    key = qual + ('.setter' if kw.get('setter') else '')
+    tag = ''
+    if '#' in qual:
+        qual, tag = qual.split('#', 1)
+        tag = '#' + tag
+    key = qual + ('.setter' if kw.get('setter') else '') + tag
     c = Contract(qual, **kw)
     REG[key] = c
     return c
